@@ -125,8 +125,15 @@ struct GpCase { Paths64 subj, clip; std::string shape; };
 // one raw G-gp candidate; R = base coordinate range
 inline GpCase gpCandidate(int64_t R) {
   GpCase c;
-  int kind = (int)G::range(0, 11);
-  if (kind == 11) {
+  int kind = (int)G::range(0, 12);
+  if (kind == 12 && !(R >= (1 << 16) && G::chance(40))) kind = 0;
+  if (kind == 12) {
+    // large: two rings of 40-160 vertices with many mutual crossings (solutions with hundreds of vertices: container
+    // growth, block boundaries and anything else that depends on size)
+    c.shape = "large_rings";
+    c.subj.push_back(ring((int)G::range(40, 160), G::sym(R / 6), G::sym(R / 6), 0.55 * R, 0.9 * R, G::coin()));
+    c.clip.push_back(ring((int)G::range(40, 160), G::sym(R / 6), G::sym(R / 6), 0.55 * R, 0.9 * R, G::coin()));
+  } else if (kind == 11) {
     c.shape = "dense";   // many edges and crossings per path (needs a large range to stay in general position)
     c.subj.push_back(randomPath(15, 32, R));
     c.clip.push_back(randomPath(10, 28, R));
